@@ -85,10 +85,12 @@ Section ValueInd.
   Hypothesis HDict : forall kvs, Forall (fun kv => P (snd kv)) kvs -> P (VDict kvs).
   Hypothesis HData : forall c fs, Forall (fun kv => P (snd kv)) fs -> P (VData c fs).
   Hypothesis HWrap : forall kvs, Forall (fun kv => P (snd kv)) kvs -> P (VWrap kvs).
+  Hypothesis HUuid : forall s, P (VUuid s).
+  Hypothesis HTime : forall s, P (VTime s).
   Fixpoint value_ind' (v : value) : P v :=
     match v with
     | VNone => HNone | VBool b => HBool b | VInt z => HInt z | VFloat z => HFloat z | VStr s => HStr s
-    | VBytes b => HBytes b | VDatetime s => HDt s | VDate s => HDate s
+    | VBytes b => HBytes b | VDatetime s => HDt s | VDate s => HDate s | VUuid s => HUuid s | VTime s => HTime s
     | VList l => HList l ((fix go (l : list value) : Forall P l :=
                              match l with [] => Forall_nil _ | x :: r => Forall_cons _ (value_ind' x) (go r) end) l)
     | VDict kvs => HDict kvs ((fix go (l : list (str * value)) : Forall (fun kv => P (snd kv)) l :=
@@ -141,7 +143,7 @@ Qed.
 Section RoundTrip.
   Variable b64dec : str -> option (list N).
   Variable b64enc : list N -> str.
-  Variable dt_parse date_parse : str -> option str.
+  Variable dt_parse date_parse uuid_parse time_parse : str -> option str.
   Variable int_of_str float_of_str : str -> option Z.
   Variable str_of_json : json -> str.
   Variable ct : list cls.
@@ -153,14 +155,14 @@ Section RoundTrip.
   Hypothesis H_sreg : all_hooked ct sreg.
   Hypothesis H_ureg : all_hooked ct ureg.
 
-  Notation S := (structure b64dec dt_parse date_parse int_of_str float_of_str str_of_json ct sreg).
-  Notation Sstr := (structure_str b64dec dt_parse date_parse int_of_str float_of_str ct sreg).
-  Notation Snode := (structure_node b64dec dt_parse date_parse int_of_str float_of_str str_of_json ct sreg).
-  Notation Snonopt := (structure_nonopt b64dec dt_parse date_parse int_of_str float_of_str str_of_json ct sreg).
+  Notation S := (structure b64dec dt_parse date_parse uuid_parse time_parse int_of_str float_of_str str_of_json ct sreg).
+  Notation Sstr := (structure_str b64dec dt_parse date_parse uuid_parse time_parse int_of_str float_of_str ct sreg).
+  Notation Snode := (structure_node b64dec dt_parse date_parse uuid_parse time_parse int_of_str float_of_str str_of_json ct sreg).
+  Notation Snonopt := (structure_nonopt b64dec dt_parse date_parse uuid_parse time_parse int_of_str float_of_str str_of_json ct sreg).
   Notation U := (unstructure b64enc ct ureg).
   Notation Unode := (unstructure_node b64enc ct ureg).
   Notation Unonopt := (unstructure_nonopt b64enc ct ureg).
-  Notation IOK := (inst_ok dt_parse date_parse ct).
+  Notation IOK := (inst_ok dt_parse date_parse uuid_parse time_parse ct).
 
   Definition ukl (v : value) : list (ty -> result json) :=
     match v with VList l => map U l | _ => [] end.
@@ -403,13 +405,17 @@ Section RoundTrip.
         clear - H HF Htyok; induction HF as [|f kv fields fs' Hfk _ IH]; constructor end.
       + inversion H; subst. apply H2; [apply Htyok; left; reflexivity | exact Hfk].
       + inversion H; subst. apply IH; [assumption|]. intros g Hg. apply Htyok. right. exact Hg.
+    - leaf (JStr s). cbn [structure structure_str].
+      match goal with H : uuid_parse s = Some s |- _ => rewrite H end. reflexivity.
+    - leaf (JStr s). cbn [structure structure_str].
+      match goal with H : time_parse s = Some s |- _ => rewrite H end. reflexivity.
   Qed.
 End RoundTrip.
 
 (* ---------- only ValueError leaves structure_from_dict (the shape of its try/except) ---------- *)
 Lemma errors_only_ValueError :
-  forall b64dec dt_parse date_parse int_of_str float_of_str str_of_json ct st T j,
-    match snd (structure_from_dict b64dec dt_parse date_parse int_of_str float_of_str str_of_json ct st T j) with
+  forall b64dec dt_parse date_parse uuid_parse time_parse int_of_str float_of_str str_of_json ct st T j,
+    match snd (structure_from_dict b64dec dt_parse date_parse uuid_parse time_parse int_of_str float_of_str str_of_json ct st T j) with
     | Returned _ | ValueError => True
     | OtherError => False
     end.
@@ -444,9 +450,9 @@ Proof.
   - intros f c' Hf Hc. cbn in Hf. destruct Hf as [<-|[<-|[<-|[]]]]; destruct Hc.
 Qed.
 
-Lemma v_demo_ok : forall dt_parse date_parse, inst_ok dt_parse date_parse ct_demo (TData 0) v_demo.
+Lemma v_demo_ok : forall dt_parse date_parse uuid_parse time_parse, inst_ok dt_parse date_parse uuid_parse time_parse ct_demo (TData 0) v_demo.
 Proof.
-  intros. apply (I_data _ _ _ 0 k_demo); [reflexivity | reflexivity |].
+  intros. apply (I_data _ _ _ _ _ 0 k_demo); [reflexivity | reflexivity |].
   cbn [c_fields k_demo v_demo].
   constructor; [apply I_int|]. constructor; [|constructor; [apply I_bytes | constructor]].
   cbn [snd f_ty]. apply I_some; [discriminate|]. apply I_list. constructor; [apply I_str | constructor].
@@ -465,7 +471,7 @@ Qed.
 Section History.
   Variable b64dec : str -> option (list N).
   Variable b64enc : list N -> str.
-  Variable dt_parse date_parse : str -> option str.
+  Variable dt_parse date_parse uuid_parse time_parse : str -> option str.
   Variable int_of_str float_of_str : str -> option Z.
   Variable str_of_json : json -> str.
   Variable ct : list cls.
@@ -473,8 +479,8 @@ Section History.
   Definition reg_equiv (r1 r2 : list N) : Prop :=
     forall c k, lookup_cls ct c = Some k -> mem_N c r1 = mem_N c r2.
 
-  Notation Sr r := (structure b64dec dt_parse date_parse int_of_str float_of_str str_of_json ct r).
-  Notation Sstr r := (structure_str b64dec dt_parse date_parse int_of_str float_of_str ct r).
+  Notation Sr r := (structure b64dec dt_parse date_parse uuid_parse time_parse int_of_str float_of_str str_of_json ct r).
+  Notation Sstr r := (structure_str b64dec dt_parse date_parse uuid_parse time_parse int_of_str float_of_str ct r).
   Notation Ur r := (unstructure b64enc ct r).
 
   Lemma map_result_ext_in : forall {A B} (f g : A -> result B) l,
@@ -543,8 +549,8 @@ Section History.
     Qed.
 
     Lemma nonopt_equiv : forall T,
-      structure_nonopt b64dec dt_parse date_parse int_of_str float_of_str str_of_json ct r1 j kl1 kd1 T =
-      structure_nonopt b64dec dt_parse date_parse int_of_str float_of_str str_of_json ct r2 j kl2 kd2 T.
+      structure_nonopt b64dec dt_parse date_parse uuid_parse time_parse int_of_str float_of_str str_of_json ct r1 j kl1 kd1 T =
+      structure_nonopt b64dec dt_parse date_parse uuid_parse time_parse int_of_str float_of_str str_of_json ct r2 j kl2 kd2 T.
     Proof.
       intro T. destruct T; cbn [structure_nonopt]; try reflexivity.
       - destruct (eager_bad T); [reflexivity|]. destruct j; try reflexivity.
@@ -561,8 +567,8 @@ Section History.
     Qed.
 
     Lemma node_equiv : forall T,
-      structure_node b64dec dt_parse date_parse int_of_str float_of_str str_of_json ct r1 j kl1 kd1 T =
-      structure_node b64dec dt_parse date_parse int_of_str float_of_str str_of_json ct r2 j kl2 kd2 T.
+      structure_node b64dec dt_parse date_parse uuid_parse time_parse int_of_str float_of_str str_of_json ct r1 j kl1 kd1 T =
+      structure_node b64dec dt_parse date_parse uuid_parse time_parse int_of_str float_of_str str_of_json ct r2 j kl2 kd2 T.
     Proof.
       intro T. destruct T; cbn [structure_node]; try apply nonopt_equiv.
       destruct j eqn:Ej; try reflexivity;
@@ -605,8 +611,8 @@ Section History.
 
   (* structure_from_dict: whatever was registered or structured before, the outcome is the same *)
   Theorem history_free_partial : forall T, reaches_all T = true -> forall st1 st2 j,
-    snd (structure_from_dict b64dec dt_parse date_parse int_of_str float_of_str str_of_json ct st1 T j) =
-    snd (structure_from_dict b64dec dt_parse date_parse int_of_str float_of_str str_of_json ct st2 T j).
+    snd (structure_from_dict b64dec dt_parse date_parse uuid_parse time_parse int_of_str float_of_str str_of_json ct st1 T j) =
+    snd (structure_from_dict b64dec dt_parse date_parse uuid_parse time_parse int_of_str float_of_str str_of_json ct st2 T j).
   Proof.
     intros T Hr st1 st2 j. unfold structure_from_dict. cbn [snd sreg_of].
     rewrite (structure_equiv (reach ct T ++ sreg_of st1) (reach ct T ++ sreg_of st2)); [reflexivity|].
@@ -618,16 +624,16 @@ Section History.
   Theorem api_encode_decode_partial :
     (forall b, b64dec (b64enc b) = Some b) -> ct_ok ct ->
     forall c v st, reaches_all (TData c) = true ->
-      inst_ok dt_parse date_parse ct (TData c) v ->
+      inst_ok dt_parse date_parse uuid_parse time_parse ct (TData c) v ->
       exists j st', unstructure_to_dict b64enc ct st v = (st', Returned j) /\
-        snd (structure_from_dict b64dec dt_parse date_parse int_of_str float_of_str str_of_json ct st' (TData c) j)
+        snd (structure_from_dict b64dec dt_parse date_parse uuid_parse time_parse int_of_str float_of_str str_of_json ct st' (TData c) j)
         = Returned v.
   Proof.
     intros Hb Hct c v st Hr Hi.
     assert (Hv : exists fs, v = VData c fs) by (inversion Hi; eexists; reflexivity).
     destruct Hv as [fs ->].
     pose (st' := {| sreg_of := sreg_of st; ureg_of := reach ct (TData c) ++ ureg_of st |}).
-    destruct (encode_decode_core b64dec b64enc dt_parse date_parse int_of_str float_of_str str_of_json ct
+    destruct (encode_decode_core b64dec b64enc dt_parse date_parse uuid_parse time_parse int_of_str float_of_str str_of_json ct
                 (reach ct (TData c) ++ sreg_of st') (ureg_of st') Hb Hct
                 (reaches_all_hooked _ _ Hr) (reaches_all_hooked _ _ Hr) (VData c fs) (TData c) eq_refl Hi)
       as [j [Hu [Hs _]]].
